@@ -30,6 +30,7 @@ def run(ctx):
     ctx.guard(rule_c, ctx, ix)
     ctx.guard(rule_d, ctx, ix)
     ctx.guard(rule_e, ctx, ix)
+    ctx.guard(rule_f, ctx, ix)
 
 
 def _stmts(f):
@@ -242,9 +243,9 @@ def rule_c(ctx, ix):
                detail='%s.undo no longer deletes the subsets the command created' % cname, where=undo.where)
 
 
-def rule_d(ctx, ix):
+def rule_d(ctx, ix, parts=('groups', 'edit', 'siblings')):
     R = 'C13.d'
-    ctx.describe(R, 'undo restores every observable session field that do may change', floor=5)
+    ctx.describe(R, 'undo restores every observable session field that do may change', floor=5 if len(parts) == 3 else 3)
     esm = ix.cls('glue.core.edit_subset_mode.EditSubsetMode')
     cd = esm.resolve_func('_combine_data')
     up = esm.resolve_func('update')
@@ -259,7 +260,7 @@ def rule_d(ctx, ix):
     a, b = ix.cls(CMD + 'ApplySubsetState'), ix.cls(CMD + 'ApplyROI')
     for c in (a, b):
         do, undo = c.resolve_func('do'), c.resolve_func('undo')
-        if creates_group:
+        if creates_group and 'groups' in parts:
             ok = any(call_name(x) == 'remove_subset_group' for x in calls_in(undo.node))
             snap = any(isinstance(st, ast.Assign) and 'subset_groups' in unparse(st.value) and unparse(st.targets[0]).startswith(do.self_name + '.')
                        for st in walk_no_nested(do.node))
@@ -279,7 +280,7 @@ def rule_d(ctx, ix):
                    detail='applying a selection can create a subset group (EditSubsetMode._combine_data calls new_subset_group), '
                           'but %s.undo never removes it (do records the groups: %s; undo calls remove_subset_group: %s): after '
                           'undo the collection still holds the new, empty group' % (c.name, snap, ok), where=undo.where)
-        if sets_edit:
+        if sets_edit and 'edit' in parts:
             ok = any(isinstance(st, ast.Assign) and unparse(st.targets[0]).endswith(('.edit_subset', '._edit_subset'))
                      for st in walk_no_nested(undo.node))
             snap = any(isinstance(st, ast.Assign) and unparse(st.value).endswith(('.edit_subset', '._edit_subset'))
@@ -288,6 +289,8 @@ def rule_d(ctx, ix):
                    detail='applying a selection can change the edit subset (EditSubsetMode writes _edit_subset), but %s.undo '
                           'does not restore it (do records it: %s; undo re-assigns it: %s): a redo then edits the wrong group'
                           % (c.name, snap, ok), where=undo.where)
+    if 'siblings' not in parts:
+        return
     # sibling agreement: the two selection commands restore in the same way
     ua, ub = a.resolve_func('undo'), b.resolve_func('undo')
     ta = [norm(st) for st in body_stmts(ua.node)]
@@ -324,3 +327,18 @@ def rule_e(ctx, ix):
         ok = len(cs) == 1 and cs[0].func.attr == name
         ctx.ob(R, g.construct, 'Application.%s delegates to CommandStack.%s' % (name, name), ok,
                detail='Application.%s calls %s on the command stack' % (name, [c.func.attr for c in cs]), where=g.where)
+
+
+def rule_f(ctx, ix):
+    """The undo snapshot holds the selection OBJECTS the subsets had: an edit mode that writes into the current object instead of
+    building a new one changes the snapshot with it, and undo restores the edited state."""
+    from .C01 import mode_edits_in_place, MODES
+    R = 'C13.f'
+    ctx.describe(R, 'edit modes build a new selection; they never write into the object the snapshot holds', floor=5)
+    for name in sorted(MODES):
+        f = ix.func('glue.core.edit_subset_mode.' + name)
+        edits = mode_edits_in_place(f)
+        ctx.ob(R, f.construct, '%s leaves the current selection object untouched' % name, not edits,
+               detail='%s writes into the selection object the subset currently holds (`%s`): the snapshot that undo restores from holds '
+                      'the same object, so after undo the selection still contains the edit' % (name, norm(edits[0]) if edits else ''),
+               where=where(f, edits[0]) if edits else f.where)
